@@ -413,5 +413,21 @@ def fix_selections(rnd, tree):
     return ["sel", which, srcs]
 
 
+def unit_counts(tree):
+    """the same tree with every positive count replaced by 1 (total weight = number of choice paths)"""
+    t = tree[0]
+    if t == "valh":
+        return ["valh", [[o, 1 if c else 0] for o, c in tree[1]]]
+    if t == "valp":
+        return ["valp", [[[o, 1 if c else 0] for o, c in h] for h in tree[1]]]
+    return [unit_counts(x) if isinstance(x, list) and x and isinstance(x[0], str) and x[0] in KINDS else
+            ([unit_counts(y) if isinstance(y, list) and y and isinstance(y[0], str) and y[0] in KINDS else y for y in x] if isinstance(x, list) else x)
+            for x in tree]
+
+
+KINDS = ("val", "valh", "valp", "pool", "rep", "bin", "un", "filt", "sel", "subst", "substmap")
+
+
 def count_paths(tree):
-    return sum(1 for _ in denote(tree))
+    """number of random choice paths of r.roll()"""
+    return sum(denote(unit_counts(tree)).values())
